@@ -9,7 +9,7 @@ pub const SEEDS: [&str; 17] = ["pa", "ta.pi", "ˈpa.taˌki", "a", "t", "paː", "
     // tones typed with zero digits (the reader drops them: 105 is 15, 50 is 5, 007 is 7)
     "ma105", "ta.ma50.ta", "sa10.ko007"];
 
-pub const RULES: [&str; 70] = [
+pub const RULES: [&str; 78] = [
     // deletion of segments, syllables, boundaries
     "a > *", "C > * / _#", "V > * / C_#", "% > * / _%", "$ > *", "$ > * / _C", "%:[-stress] > * / _%", "t > * / #_", "V > * / _V", "C > * / _$", "%=1 > * / 1_",
     // insertion of boundaries, segments, syllables, structures, variables
@@ -21,6 +21,8 @@ pub const RULES: [&str; 70] = [
     // stress and tone
     "% > [tone:51]", "%:[tone:51] > [tone:1234]", "% > [tone:50] / _#", "%:[tone:5] > [tone:105]", "$ > * / %:[tone:5]_", "V$ > * / _V", "% > [+stress] / #_", "%:[+stress] > [-stress]", "V > [+sec.stress] / _#", "% > [tone:0]", "$ > * / _V", "V > [tone:5] / _C",
     // place and nodes
+    // structures that may come out empty: no items, an unbound variable, a variable bound elsewhere
+    "% > ⟨⟩", "a > ⟨⟩", "* > ⟨⟩ / _#", "k > ⟨1⟩", "C > ⟨1⟩ / _#", "C=1 > ⟨1 a⟩", "* > ⟨1⟩ / C=1 _", "% > ⟨2⟩:[+stress]",
     "C > [-place] / _#", "[+cons] > [αPLACE] / _[+cons, αPLACE]", "t > [+lab]", "p > [-lab]", "V > [+round]", "[] > [-dor]", "C > [+phr]", "[+lab] > [-lab, -cor, -dor, -phr]", "V > [αdor] / _[αdor]",
 ];
 
@@ -51,7 +53,7 @@ fn replay_path(seed: &CW, acts: &[Vec<String>]) -> Vec<Result<CW, String>> {
 pub fn run() -> i32 {
     let mut r = Report::new("C08");
     let thorough = r.thorough();
-    r.rule = "explicit-state BFS: states = structural words (all syllables, segments as feature bundles, stress, tone; nothing abstracted), actions = one rule each from an alphabet covering every structure-changing path (segment / syllable / boundary deletion, insertion of boundaries, segments, syllables, structures and variables, metathesis with boundaries, substitution by structures and variables, length, stress, tone, node and place changes), transition = the real Rule::apply; invariant of the property evaluated on every reachable state. Second action family: every rule of rulegen(3) from the seeds (depth 1; thorough: depth 2 over rulegen(2)). Non-trivial = distinct states other than the seeds.".into();
+    r.rule = "explicit-state BFS: states = structural words (all syllables, segments as feature bundles, stress, tone; nothing abstracted), actions = one rule each from an alphabet covering every structure-changing path (segment / syllable / boundary deletion, insertion of boundaries, segments, syllables, structures and variables, metathesis with boundaries, substitution by structures and variables, length, stress, tone, node and place changes), transition = the real Rule::apply; invariant of the property evaluated on every reachable state. Words that enter through a deromaniser (`q > S:[M]`, `+q > [M]` for every node / feature / length / stress / tone modifier M) must be well formed as read. Second action family: every rule of rulegen(3) from the seeds (depth 1; thorough: depth 2 over rulegen(2)). Non-trivial = distinct states other than the seeds.".into();
     let seeds = seeds();
     let actions: Vec<Vec<String>> = RULES.iter().map(|s| vec![s.to_string()]).collect();
     let depth = if thorough { 4 } else { 2 };
@@ -73,6 +75,30 @@ pub fn run() -> i32 {
         r.viol(Viol { key: short, desc: format!("{}: /{}/ after [{}] from /{}/", v.desc, show_cw(&g.states[*sid as usize]), acts.iter().map(|a| RULES[*a as usize]).collect::<Vec<_>>().join(" ;; "), show_cw(&g.states[root as usize])),
             case: json!({"seed": cw_json(&g.states[root as usize]), "rules": acts.iter().map(|a| RULES[*a as usize]).collect::<Vec<_>>()}) });
     }
+    // ---- words that enter through a deromaniser: every output form `S:[M]` (segment + one modifier) and `+q > [M]` (payload added to
+    // the previous segment) over all node / feature / length / stress / tone modifiers; whatever the reader returns must be well formed
+    let mut mods: Vec<String> = vec![];
+    for n in ["lab", "cor", "dor", "phr", "place"] { mods.push(format!("+{}", n)); mods.push(format!("-{}", n)); }
+    for f in model::FEATS.iter() { mods.push(format!("+{}", f.0)); mods.push(format!("-{}", f.0)); }
+    for x in ["+long", "-long", "+overlong", "+stress", "-stress", "+sec.stress", "-sec.stress", "+long, +overlong", "-long, +overlong"] { mods.push(x.to_string()); }
+    for t in ["5", "51", "1234", "12345", "105", "50", "007", "0", "65535", "70000", "99999"] { mods.push(format!("tone: {}", t)); }
+    let bases = ["a", "t", "p", "k", "ħ", "h", "i"];
+    let mut alias_cases: Vec<(String, Vec<&str>)> = vec![];
+    for m in &mods { for b in bases { alias_cases.push((format!("q > {}:[{}]", b, m), vec!["q", "paq", "ta.q5", "ˈqq"])); } alias_cases.push((format!("+q > [{}]", m), vec!["aq", "tq", "pq.kq", "ħq", "taːq", "hq5"])); }
+    let mut d_ok = 0u64; let mut d_err = 0u64; let mut d_crash = 0u64; let mut dv: Vec<Viol> = vec![];
+    for (line, ws) in &alias_cases {
+        let al = match guarded(500_000, || asca::verif::compile_aliases(&[line.clone()], &[])) { Out::Ok(Ok(a)) => a, Out::Ok(Err(_)) => { d_err += 1; continue; } _ => { d_crash += 1; continue; } };
+        for w in ws {
+            match guarded(500_000, || asca::verif::parse_word(w, Some(&al)).map(|x| cw_of(&x))) {
+                Out::Ok(Ok(cw)) => { d_ok += 1; if let Some((k, d)) = well_formed(&cw) { dv.push(Viol { key: format!("deromaniser|{}|{}", k, line), desc: format!("{}: typing `{}` with deromaniser `{}` is read as /{}/", d, w, line, show_cw(&cw)), case: json!({"alias": line, "word": w}) }); } }
+                Out::Ok(Err(_)) => d_err += 1,
+                _ => d_crash += 1,
+            }
+        }
+    }
+    r.boxes.push(json!({"box": "words read through a deromaniser (segment + modifier, plus-payload)", "alias_lines": alias_cases.len(), "words_read": d_ok, "rejected": d_err, "crashed (C02)": d_crash, "ill_formed": dv.len()}));
+    r.guard(d_ok > 500, "deromaniser box: more than 500 words read");
+    for v in dv { r.viol(v); }
     let mut states = g.states.len() as u64; let mut trans = g.transitions;
     // second family: the generated grammar from the seeds
     let n = if thorough { 3 } else { 3 };
@@ -109,6 +135,10 @@ pub fn run() -> i32 {
 fn SEEDS_TEXT(root: u32, seeds: &[CW]) -> String { show_cw(&seeds[root as usize]) }
 
 pub fn replay(case: &Value) -> Result<String, String> {
+    if let (Some(line), Some(w)) = (case["alias"].as_str(), case["word"].as_str()) {
+        let al = match guarded(500_000, || asca::verif::compile_aliases(&[line.to_string()], &[])) { Out::Ok(Ok(a)) => a, _ => return Ok("the alias is rejected".into()) };
+        return match guarded(500_000, || asca::verif::parse_word(w, Some(&al)).map(|x| cw_of(&x))) { Out::Ok(Ok(cw)) => match well_formed(&cw) { Some((_, d)) => Err(format!("{}: `{}` with `{}` is read as /{}/", d, w, line, show_cw(&cw))), None => Ok(format!("read as /{}/, well formed", show_cw(&cw))) }, Out::Ok(Err(e)) => Ok(format!("rejected: {:?}", e)), o => Err(o.crash_desc().unwrap()) };
+    }
     let seed = cw_from_json(&case["seed"]).ok_or("no seed")?;
     let rules: Vec<Vec<String>> = case["rules"].as_array().ok_or("no rules")?.iter().map(|x| vec![x.as_str().unwrap_or("").to_string()]).collect();
     let states = replay_path(&seed, &rules);
